@@ -1,22 +1,22 @@
 SPECIFICATION MCSpec
 CONSTANTS
-  MaxRecs = 5
-  MaxBatch = 1
-  MaxOps = 8
-  MaxEpoch = 1
+  MaxRecs = 4
+  MaxBatch = 2
+  MaxOps = 7
+  MaxEpoch = 2
   CapSet = {1, 2}
-  KeySet = {"nil", "empty", "a"}
+  KeySet = {"nil", "a"}
   AgeSet = {0}
-  MsgsSet = {0}
+  MsgsSet = {0, 2}
   BytesSet = {0}
-  CompactSet = {TRUE}
+  CompactSet = {FALSE, TRUE}
   LagSet = {0}
   BigSet = {FALSE}
   MaxCleans = 2
   MaxTicks = 0
   UseWindow = TRUE
-  UseReopen = FALSE
-  UseEpochs = FALSE
+  UseReopen = TRUE
+  UseEpochs = TRUE
 INVARIANTS CTypeOK C01_Ordered SegsConsistent NoEmptyInnerSegment
 PROPERTIES StepsOK
 VIEW MCView
